@@ -1,5 +1,6 @@
 """C14 - worst-case and gradient evaluators compute what they promise, stably (histories of batches)."""
 import gc
+import copy
 import math
 from hypothesis import strategies as st
 
@@ -25,7 +26,7 @@ coef = st.one_of(st.integers(-3, 3).map(float), st.floats(-5, 5, allow_nan=False
 def setup(draw):
     n = draw(st.integers(1, 3))
     m = draw(st.integers(1, 2))
-    tol = [draw(st.sampled_from([0.5, 0.1, 0.25, 1e-3, 1.0])) for _ in range(n)]
+    tol = [draw(st.sampled_from([0.5, 0.1, 0.25, 1e-3, 1.0, 0.0])) for _ in range(n)]   # 0.0: an exactly known parameter
     lin = [[draw(coef) for _ in range(n)] for _ in range(m)]
     quad = [draw(coef) for _ in range(m)]
     crit = [draw(st.sampled_from(["minimize", "maximize"])) for _ in range(m)]
@@ -51,6 +52,9 @@ def batch_history(draw):
     s["resubmit"] = [draw(st.lists(st.integers(0, 15), max_size=2)) if b and draw(st.integers(0, 2)) == 0 else []
                      for b in range(nb)]
     s["forget"] = draw(st.sampled_from([False, False, True])) and not any(s["resubmit"])
+    # new designs of later batches are offspring: their features are a deep copy of an already processed design's
+    # (what the swarm algorithms' CopySelector hands on)
+    s["inherit"] = draw(st.sampled_from([False, False, True]))
     s["retol"] = draw(st.one_of(st.none(), st.none(), st.tuples(
         st.integers(1, 3), st.integers(0, s["n"] - 1), st.sampled_from([0.5, 0.125, 0.01, 2.0]))))
     return s
@@ -112,6 +116,9 @@ def check_worst_case(case):
                 tol[retol[1]] = retol[2]
             before = len(log)
             inds = [Individual(list(v)) for v in batch]
+            if s.get("inherit") and seen:
+                for ind_ in inds:
+                    ind_.features = copy.deepcopy({k_: v_ for k_, v_ in seen[0][0].features.items()})
             again = []
             for r in (s.get("resubmit") or [[]] * (bi + 1))[bi]:
                 if seen and all(seen[r % len(seen)][0] is not a for a in again):
@@ -194,7 +201,7 @@ def check_worst_case(case):
     finally:
         dispose(prob)
     nb = len(s["batches"])
-    return {"nt": nb >= 2, "classes": ["batches%d" % nb, "m%d" % m, "n%d" % n] + (["forget"] if s.get("forget") else []) + (["resubmit"] if any(s.get("resubmit") or []) else [])
+    return {"nt": nb >= 2, "classes": ["batches%d" % nb, "m%d" % m, "n%d" % n] + (["forget"] if s.get("forget") else []) + (["resubmit"] if any(s.get("resubmit") or []) else []) + (["inherited-features"] if s.get("inherit") and nb > 1 else [])
             + (["retol"] if retol and retol[0] < nb else [])}
 
 
